@@ -12,7 +12,8 @@ EXPLANATION = (
     "— one discharged obligation per function; this verifies the library TEXT and assumes C01 (the compiler implements "
     "S3). Imports (bounded): all import graphs over three generated files and the main file (chains, diamonds, repeated "
     "imports, self- and mutual cycles, cycles through the main file) in several working directories are compiled by the "
-    "real pipeline; the result must equal (S2 vs S3 by SMT) the program with every file pasted in once."
+    "real pipeline; the result must equal (S2 vs S3 by SMT) the program with every file pasted in once; at function level the TEXT preprocess_imports returns is "
+    "compared line by line with the documented inclusion, and resolve_import_path with the documented search order (both bounded, on the real functions)."
 )
 
 
@@ -31,4 +32,20 @@ def run(tier):
                          f"{len(progs)} programs importing lib/math.facto whose own int names collide with library parameter names; optimize={optimize}",
                          cr.known, opts={"optimize": optimize})
     cr.bounded_check(run_import_scope, "import-graphs", tier, "import graphs over 3 files + main x working directories", cr.known)
+    from bounded import pipeline
+    from bounded.contract_enum import run_contract_enum
+    from contracts import c17
+    pipeline.ensure_repo()
+    try:
+        rargs = c17.resolve_arg_sets()
+        cr.bounded_check(run_contract_enum, "resolve-import-path-box", c17.resolve_path, rargs,
+                         f"{len(rargs)} directory layouts (file present / absent next to the importer and in two FACTORIO_IMPORT_PATH directories; with and without an importing "
+                         "directory): the first existing candidate in the documented order (contract evaluated on the real resolve_import_path)")
+        pargs = c17.preprocess_arg_sets(tier)
+        cr.bounded_check(run_contract_enum, "preprocess-imports-text-box", c17.preprocess, pargs,
+                         f"{len(pargs)} import graphs (three library files, one in a sub-directory, x four main programs, written to a scratch directory): the expanded TEXT is the "
+                         "line-by-line inclusion — first import pasted, later ones one comment line, every other line kept once, in order, unchanged (contract evaluated on the real "
+                         "preprocess_imports)")
+    finally:
+        c17.cleanup()
     return cr.finish()
